@@ -895,6 +895,45 @@ def frame(ctx: Ctx) -> List[Ob]:
             elif ok:
                 ok = None
     obs.append(ctx.tri("FRAME", ["C04", "C02"], f, "set_data touches the other clones only under with_clones", None, ok, "without with_clones exactly this node changes"))
+    # a slot that loses one node is deleted when it becomes empty, or provably keeps another node (count_unique, `in`, find(data_id=))
+    takes = []
+    for c in ast.walk(f.node):
+        if isinstance(c, ast.Call) and isinstance(c.func, ast.Attribute) and c.func.attr in ("pop", "remove") and "_nodes_by_data_id[" in norm(
+                resolve_expr(ctx, f, c, c.func.value)):
+            takes.append(c)
+    ok = None
+    if takes:
+        def _len_test(e) -> bool:
+            t = norm(e)
+            return "len(" in t or any(isinstance(x, ast.Name) and any("len(" in norm(v) for v in reaching_values(ctx, f, e, x) or [])
+                                      for x in ast.walk(e))
+        dels = [n for n in ast.walk(f.node) if isinstance(n, ast.Delete) and any(
+            "_nodes_by_data_id[" in norm(resolve_expr(ctx, f, n, t)) for t in n.targets)]
+
+        def _deleted_after(c) -> bool:
+            """A `del` of an index slot that runs after the take on the same path (the emptied slot is dropped there)."""
+            mine = set(cond_texts(path_conds(ctx, f, c)))
+            return any(n.lineno > c.lineno and mine <= set(cond_texts(path_conds(ctx, f, n))) for n in dels)
+        ok = True
+        for c in takes:
+            conds = path_conds(ctx, f, c)
+            def _atoms(e, pol):
+                if isinstance(e, ast.UnaryOp) and isinstance(e.op, ast.Not):
+                    yield from _atoms(e.operand, not pol)
+                elif isinstance(e, ast.BoolOp):
+                    if isinstance(e.op, ast.And) == bool(pol):
+                        for v in e.values:
+                            yield from _atoms(v, pol)
+                else:
+                    yield e
+            if any(_len_test(a) for e, p_ in conds for a in _atoms(e, p_)):
+                continue  # reached only when the slot holds more than this node (or the count was looked at)
+            if _deleted_after(c):
+                ok = None if ok else ok
+                continue
+            ok = False  # witness: the slot of a single node is emptied and stays in the index as []
+    obs.append(ctx.tri("FRAME", ["C04", "C02"], f, "set_data: a node is taken out of its index slot only when the slot keeps another node (or the emptied slot is deleted)", None, ok,
+                       "an empty slot left under the old data_id counts in count_unique and answers `in` / find(data_id=)"))
     amb = [c for c in exit_cases(ctx, f, ("raise",)) if raised_class(c.stmt) == "AmbiguousMatchError"]
     ok = any(find_cases([c], "raise", None, [("with_clones is None", True), ("len($$h) > 1", True)]) or find_cases([c], "raise", None, [("with_clones is None", True), ("$h", True)]) for c in amb)
     obs.append(ctx.ob("FRAME", ["C04", "C13"], f, "set_data on a clone requires a with_clones decision", None, ok, ""))
